@@ -99,7 +99,7 @@ no_bytes_method:
 		if size < 0 {
 			return nil, ExceptionNewf(ValueError, "negative count")
 		}
-		return make(Bytes, size), nil
+		return bytesSized(size)
 	}
 
 	// If it's not unicode, there can't be encoding or errors
@@ -108,6 +108,17 @@ no_bytes_method:
 	}
 
 	return BytesFromObject(x)
+}
+
+// bytesSized returns size zero bytes or MemoryError if that is more
+// than can be allocated, where make would panic.
+func bytesSized(size int) (b Bytes, err error) {
+	defer func() {
+		if r := recover(); r != nil {
+			err = ExceptionNewf(MemoryError, "cannot allocate %d bytes", size)
+		}
+	}()
+	return make(Bytes, size), nil
 }
 
 // Converts an object into bytes
